@@ -66,7 +66,13 @@ def session(it):
     sys.stdin, sys.stdout, sys.stderr = inp, out, err
     try:
         try:
-            v = ask_interactively(VERSION[it["bver"]], it["all"], it.get("no_colors", True))
+            ver = VERSION[it["bver"]]
+            # the same number as int or float (the docstring documents "2 or 3.0/3.1 or 4")
+            if it.get("num") == "int" and float(ver) == int(ver):
+                ver = int(ver)
+            elif it.get("num") == "float":
+                ver = float(ver)
+            v = ask_interactively(ver, it["all"], it.get("no_colors", True))
             events.append({"ev": "Return", "value": esc(v)})
         except EOFError:
             events.append({"ev": "EofError"})
